@@ -22,7 +22,13 @@ const RDB    fmap[string]seq[Element]
 const RDBlen fmap[string]int
 pred DBIs(db shared.DBNodeMap) :=
      (forall k string :: {db[k]} {k in db} (k in db) == (k in RDBdom))
-  && (forall k string :: {db[k]} k in db ==> db[k] != nil && elems(db[k].Elements) == RDB[k] && len(db[k].Elements) == RDBlen[k] && RDBlen[k] >= 0)
+  && (forall k string :: {db[k]} k in db ==> db[k] != nil && allocated(db[k]) && arr(db[k].Elements) < alloc() && elems(db[k].Elements) == RDB[k] && len(db[k].Elements) == RDBlen[k] && RDBlen[k] >= 0)
+
+// every entry of the book is a record
+pred DBOk(db shared.DBNodeMap) := forall k string :: {db[k]} {k in db} k in db ==> db[k] != nil
+
+// the book's records and element lists were allocated before reference lo
+pred DBBelow(db shared.DBNodeMap, lo int) := forall k string :: {db[k]} k in db ==> ref(db[k]) < lo && arr(db[k].Elements) < lo
 
 fun CPosIn(l seq[Element], j int, q float64, x string) float64 :=
   if j <= 0 then 0.0 else CPosIn(l, j - 1, q, x) + (if l[j-1].Name == x && !(l[j-1].Value * q < 0.0) then l[j-1].Value * q else 0.0)
@@ -46,10 +52,16 @@ pred AccIs(acc shared.Accumulator, els seq[Element], i int, l seq[Element], j in
   && (forall x string :: {accN[acc][x]} accN[acc][x] == ENeg(els, i, x) + CNegIn(l, j, q, x))
   && (forall x string :: {x in accH[acc]} (x in accH[acc]) == (EHas(els, i, x) || SpecHas(l, j, x)))
 
+// the same, on top of what the accumulator held before (period reporters keep one accumulator for the whole walk):
+// P0 / N0 / H0 are the view's values at the start of the day
+pred AccFrom(acc shared.Accumulator, P0 fmap[string]float64, N0 fmap[string]float64, H0 set[string], els seq[Element], i int, l seq[Element], j int, q float64) :=
+     (forall x string :: {accP[acc][x]} accP[acc][x] == P0[x] + EPos(els, i, x) + CPosIn(l, j, q, x))
+  && (forall x string :: {accN[acc][x]} accN[acc][x] == N0[x] + ENeg(els, i, x) + CNegIn(l, j, q, x))
+  && (forall x string :: {x in accH[acc]} (x in accH[acc]) == (x in H0 || EHas(els, i, x) || SpecHas(l, j, x)))
+
 // ---------------------------------------------------------------------------------------------
 // newTotalFromAccumulator: one row per key, strictly sorted by name, whatever order the map is visited in
 // ---------------------------------------------------------------------------------------------
-fun StrictStr(a seq[string], n int) bool opaque := forall p, q int :: 0 <= p && p < q && q < n ==> a[p] < a[q]
 fun TotalsSorted(ts seq[total], n int) bool opaque := forall p, q int :: 0 <= p && p < q && q < n ==> ts[p].Name < ts[q].Name
 pred TotalsOf(ts seq[total], n int, acc shared.Accumulator) :=
      TotalsSorted(ts, n)
